@@ -2,15 +2,16 @@
 # confirm-seeded.sh <worktree> <dir with patch.diff demo.rs notes.txt> <ID>
 # Confirms a seeded change in a scratch worktree: compiles, passes the existing suite, demo fails with / passes without.
 # Writes /verif/seeded/<name>/ (patch.diff, demo.rs, notes.txt, meta.json).  name = <ID>-<tag of the source dir>
+# optional: 4th arg = name under seeded/ (default <ID>-<tag>), env DEMO_FEATURES="--features derive" for the demo runs
 wt="$1"; src="$2"; id="$3"; tag=$(basename $(dirname "$src"))
-name="$id-$tag"; out=/verif/seeded/$name; mkdir -p "$out"
+name="${4:-$id-$tag}"; out=/verif/seeded/$name; mkdir -p "$out"
 cd "$wt" || exit 2
 git checkout -q -- . ; rm -f avro/tests/verif_demo_*.rs
 cp "$src/demo.rs" avro/tests/verif_demo_$id.rs
 # demo without the change
-d0=$(cargo test -p apache-avro --test verif_demo_$id --offline 2>&1 | grep "^test result" | tail -1)
+d0=$(cargo test -p apache-avro $DEMO_FEATURES --test verif_demo_$id --offline 2>&1 | grep "^test result" | tail -1)
 git apply "$src/patch.diff" || { echo "patch does not apply"; exit 2; }
-d1=$(cargo test -p apache-avro --test verif_demo_$id --offline 2>&1 | grep "^test result\|error\[" | tail -1)
+d1=$(cargo test -p apache-avro $DEMO_FEATURES --test verif_demo_$id --offline 2>&1 | grep "^test result\|error\[" | tail -1)
 rm -f avro/tests/verif_demo_$id.rs
 suite=$(cargo test --workspace --no-fail-fast --offline 2>&1 | grep "^test result" | awk '{p+=$4; f+=$6} END {print p" passed, "f" failed"}')
 git checkout -q -- . 
